@@ -43,10 +43,19 @@ type dialTransport struct {
 	// aborts[addr] = number of coming dial attempts at addr that fail as an aborted in-flight dial does: with an
 	// error that wraps context.Canceled although the request itself is alive
 	aborts map[string]int
+	// staticPeer / staticAddr: a peer configured at a fixed address (GetPeerDialer)
+	staticPeer peer.ID
+	staticAddr string
 }
 
 func (d *dialTransport) MatchTransportType(t string) bool { return t == "tbl" }
 func (d *dialTransport) GetPeerDialer(ctx context.Context, p peer.ID) (*dialer.DialerOpts, error) {
+	d.mu.Lock()
+	defer d.mu.Unlock()
+	if d.staticAddr != "" && p == d.staticPeer {
+		// the peer is statically configured at that address (as a transport's configured dialer map does)
+		return &dialer.DialerOpts{Address: d.staticAddr, Backoff: &backoff.Backoff{BackoffKind: backoff.BackoffKind_BackoffKind_CONSTANT, Constant: &backoff.Constant{Interval: 10}}}, nil
+	}
 	return nil, nil
 }
 
@@ -121,14 +130,25 @@ type c05cCase struct {
 	Ops []c05cOp `json:"ops"`
 	// Hold: standing DialTptAddr requests for X at both addresses for the whole history
 	Hold bool `json:"hold"`
+	// Static (0 = none, 1 = addr-a, 2 = addr-b): X is statically configured at that address in the transport, so the
+	// application's standing wish for a link with X keeps a dial request for (X, address) alive for the whole history
+	Static int `json:"static,omitempty"`
 }
 
 func genC05c(t *rapid.T) c05cCase {
-	c := c05cCase{Hold: rapid.Bool().Draw(t, "hold")}
+	c := c05cCase{Hold: rapid.Bool().Draw(t, "hold"), Static: rapid.SampledFrom([]int{0, 0, 1, 2}).Draw(t, "static")}
 	if rapid.IntRange(0, 2).Draw(t, "both") == 0 {
 		// links with X at both addresses, then one of them is lost while the other stays
 		c.Ops = append(c.Ops, c05cOp{Op: "bind", Addr: 0, Who: 1}, c05cOp{Op: "bind", Addr: 1, Who: 1}, c05cOp{Op: "dial", Addr: 0}, c05cOp{Op: "dial", Addr: 1},
 			c05cOp{Op: "lose", Addr: rapid.IntRange(0, 1).Draw(t, "la")})
+		if rapid.Bool().Draw(t, "bothgo") {
+			// ... later the other link goes as well, and X is dialed again where the first link was lost
+			la := c.Ops[len(c.Ops)-1].Addr
+			if rapid.Bool().Draw(t, "staticla") {
+				c.Static = la + 1
+			}
+			c.Ops = append(c.Ops, c05cOp{Op: "pause"}, c05cOp{Op: "lose", Addr: 1 - la}, c05cOp{Op: "pause"}, c05cOp{Op: "dial", Addr: la})
+		}
 	}
 	n := rapid.IntRange(3, 12).Draw(t, "n")
 	for i := 0; i < n; i++ {
@@ -173,6 +193,12 @@ func checkC05c(c c05cCase) (o vstat.Outcome) {
 	}
 	X, Y := gen.PeerID(1), gen.PeerID(2)
 	addrs := []string{"addr-a", "addr-b"}
+	if c.Static != 0 {
+		dt.mu.Lock()
+		dt.staticPeer, dt.staticAddr = X, addrs[c.Static-1]
+		dt.mu.Unlock()
+		o.Classes = append(o.Classes, "statically-configured-peer")
+	}
 	bo := func() *backoff.Backoff {
 		return &backoff.Backoff{BackoffKind: backoff.BackoffKind_BackoffKind_CONSTANT, Constant: &backoff.Constant{Interval: 10}}
 	}
